@@ -140,6 +140,37 @@ fn with_result(wire: &str) -> Vec<String> {
     wire.split('|').filter(|it| !it.is_empty() && *it != "-" && *it != "-!").map(|s| s.to_owned()).collect()
 }
 
+/// part 1 of the property over GENERATED definitions (every column kind, type and modifier, JSON columns before and
+/// after regex columns, NOT NULL and DEFAULT anywhere): a line becomes a row iff some column obtains a non-NULL value
+/// (a DEFAULT counts) and every column DECLARED NOT NULL is non-NULL. Which columns are NOT NULL is taken from the
+/// definition text the generator wrote, not from the parsed definition.
+fn admission_over_generated_definitions(run: &mut Run, rng: &mut Rng, ndefs: usize, lines_per_def: usize) {
+    use crate::extract::{gen_def, json_line, parse_def, regex_line, tpl_index, GMod};
+    use sqlgrep::data_model::ColumnParsing;
+    for _ in 0..ndefs {
+        let share = rng.below(11) as u64;
+        let g = gen_def(rng, share);
+        let text = g.render(rng);
+        let td = match parse_def(&text) { Ok(td) => td, Err(_) => { run.count("gen-def-rejected"); continue; } };
+        if td.columns.len() != g.cols.len() { run.count("gen-def-shape"); continue; }
+        let not_null: Vec<bool> = g.cols.iter().map(|c| matches!(c.modifier, GMod::NotNull)).collect();
+        let any_json = td.columns.iter().any(|c| matches!(c.parsing, ColumnParsing::Json(_)));
+        for _ in 0..lines_per_def {
+            let (line, shape) = if any_json && !rng.chance(1, 5) { json_line(rng, &td) } else { regex_line(rng, &td, &tpl_index) };
+            let lo = line_oracle(&td, &line);
+            let nulls: Vec<bool> = td.columns.iter().map(|c| spec_column(&td, c, &lo, &line).main.is_null()).collect();
+            let want = nulls.iter().any(|n| !n) && nulls.iter().zip(not_null.iter()).all(|(n, nn)| !*nn || !*n);
+            run.oracle_checks += 1;
+            let got = match crate::util::catch(|| td.extract(&line).any_result()) { crate::util::Caught::Done(b) => b, crate::util::Caught::Panic(m) => { run.fail(format!("definition={} line={:?}", text.replace('\n', " "), line), "panic:extract", m); continue; } };
+            run.count(&format!("gen-def-admission:{}:{}", if want { "row" } else { "no-row" }, shape.split('-').next().unwrap_or("")));
+            if got != want {
+                run.fail(format!("definition={} line={:?}", text.replace('\n', " "), line), if want { "admitted-line-dropped:generated-definition" } else { "noise-line-admitted:generated-definition" },
+                         format!("extract(..).any_result() = {} but the sentence gives {} (NULL per column: {:?}, declared NOT NULL: {:?})", got, want, nulls, not_null));
+            }
+        }
+    }
+}
+
 pub fn run(p: &Params) -> Run {
     let mut run = Run::new("C06");
     let mut rng = Rng::new(p.seed ^ 0x06);
@@ -147,6 +178,7 @@ pub fn run(p: &Params) -> Run {
     let jpath = tmp_file(b"");
     let jp = jpath.display().to_string();
     let opts = QueryOpts { allow_limit: true, allow_distinct: true, allow_join: true, aggregate: None };
+    admission_over_generated_definitions(&mut run, &mut rng, p.n(150, 4_000), 8);
     for it in 0..iterations {
         if it % 5 == 0 { default_schema_cases(&mut run, &mut rng, it % 10 == 0); }
         let dflt_schema = it % 4 == 3;
